@@ -828,6 +828,10 @@ func (self *PathNode) handleChild(in *[]PathNode, lp *int, cp *int, p *thrift.Bi
 		if err := v.scanChildren(p, recurse, opts); err != nil {
 			return nil, err
 		}
+		if opts.NotScanParentNode && len(v.Next) == 0 {
+			// an empty container has no children to be marshaled from: keep its raw bytes
+			v.Node.l = p.Read
+		}
 		p.Buf = buf
 		p.Read = ss + p.Read
 	}
